@@ -41,7 +41,7 @@ func newGen(r *rng.R, family string) *gen {
 	g := &gen{r: r, family: family, subs: map[string]string{}, registered: map[string]bool{}, everNext: map[string]bool{}, gotShutdown: map[string]bool{}}
 	names := []string{"a", "b", "c"}
 	ne := r.Intn(4)
-	if family == "noext" {
+	if family == "noext" || family == "slowbody" {
 		ne = 0
 	}
 	if family == "sizes" {
@@ -82,7 +82,7 @@ func newGen(r *rng.R, family string) *gen {
 	}
 	g.cfg.timeout = 2000
 	switch family {
-	case "timeouts", "faults", "chaos", "shutdown", "concurrent":
+	case "timeouts", "faults", "chaos", "shutdown", "concurrent", "slowbody":
 		g.cfg.timeout = 300 + 100*r.Intn(4)
 	case "sizes":
 		g.cfg.timeout = 8000
@@ -135,6 +135,8 @@ func (g *gen) next(w *world) []string {
 		fault = 4
 	case "chaos":
 		misuse, fault, conc = 4, 3, 2
+	case "slowbody":
+		// a runtime that uploads its response slowly, around the expiry of the invocation
 	case "concurrent":
 		conc = 8
 		fault = 3 // extra callers must also be tried while a failure reset is in progress
@@ -199,6 +201,15 @@ func (g *gen) next(w *world) []string {
 		}
 		if !blocked["rt.next"] && !g.rtHolding {
 			add(35, "rt", "next")
+		}
+		if g.family == "slowbody" {
+			if g.rtHolding && len(w.slow) == 0 {
+				add(60, "rt", "slowresponse", "cur", fmt.Sprint(2000+g.r.Intn(3000)), "rand")
+			}
+			if len(w.slow) > 0 {
+				add(25, "rt", "finish")
+				add(25, "sleep", fmt.Sprint(g.cfg.timeout+150))
+			}
 		}
 		if g.rtHolding {
 			sz := []int{0, 1, 10, 4096, 70000}[g.r.Intn(5)]
